@@ -23,7 +23,9 @@ BENIGN = {"string": "abc", "date": "2024-01-15", "number": 7, "unquoted": "statu
 STRINGS = ["", "abc", "it's", "''", "'", "a''b", "x' OR '1'='1", "x' OR '1'='1' --", "2024-02-01' OR '1'='1", "a;b", "a; DROP TABLE orders; --", "/* c */", "-- c",
            "line1\nline2", "tab\there", "back\\slash", "back\\' OR 1=1 --", "{{ p }}", "{{ p_number }}", "over {{ p_yesno }} x", "{{p_date}}", "{{ p_string }}", "{{ p_unquoted }}", "{% if x %}", "{# c #}", "SELECT", "NULL", "true", "today", "yesterday",
            "last 7 days", "this month", "nan", "NaN", "inf", "-inf", "Infinity", "1e309", "1.5", "-2", "1e5", "0x10", "1_000", " 12 ", "12abc", "a.b", "a_b1", "a-b", "a b",
-           "status", "orders.status", "1=1", "\"q\"", "%", "_", ".", "__", "9" * 40, "z" * 300 + "'", "\u00e9t\u00e9", "\u4e2d\u6587'", "\U0001F600"]
+           "status", "orders.status", "1=1", "\"q\"", "%", "_", ".", "__", "9" * 40, "z" * 300 + "'", "\u00e9t\u00e9", "\u4e2d\u6587'", "\U0001F600",
+           # values that name ANOTHER registered model (a joinable one): nothing in a value may pull a model into the query
+           "customers.region", "\\' customers.id", "x\\' OR customers.id = 1 --", "' customers.region = '", "a\\\\' customers.id", "customers.id = orders.customer_id"]
 
 
 def corpus(rng, n_extra):
@@ -155,8 +157,11 @@ def make_layer():
     from sidemantic import Dimension, Metric, Model
     from sidemantic.core.parameter import Parameter
     layer = dbutil.fresh_layer()
-    layer.conn.execute("create table orders(id bigint, status varchar, amount double, created date, flag boolean)")
-    layer.add_model(Model(name="orders", table="orders", primary_key="id",
+    layer.conn.execute("create table orders(id bigint, status varchar, amount double, created date, flag boolean, customer_id bigint)")
+    layer.conn.execute("create table customers(id bigint, region varchar)")
+    from sidemantic import Relationship
+    layer.add_model(Model(name="customers", table="customers", primary_key="id", dimensions=[Dimension(name="region", type="categorical")], metrics=[Metric(name="cn", agg="count")]))
+    layer.add_model(Model(name="orders", table="orders", primary_key="id", relationships=[Relationship(name="customers", type="many_to_one", foreign_key="customer_id")],
                           dimensions=[Dimension(name="status", type="categorical"), Dimension(name="created", type="time", granularity="day"),
                                       Dimension(name="flag", type="boolean"), Dimension(name="amount", type="numeric")],
                           metrics=[Metric(name="n", agg="count"), Metric(name="total", agg="sum", sql="amount")]))
@@ -286,6 +291,9 @@ def e2e(c, vals):
                     continue
                 if ty == "unquoted" and not_identifier_path(str(v)) and c.is_open("C16-K4"):
                     c.known("C16-K4")
+                    continue
+                if ty == "unquoted" and str(v).split(".")[0] in layer.graph.models and str(v).split(".")[0] != "orders" and "." in str(v) and c.is_open("C16-K5"):
+                    c.known("C16-K5")
                     continue
                 c.violation("parameter value changes the structure of the generated SQL (type %s, template %r)" % (ty, tpl),
                             {"kind": "e2e", "type": ty, "template": tpl, "value_kind": kind, "value": repr(v), "sql": sql[-600:], "benign_sql": benign_sql[-600:]})
